@@ -87,10 +87,44 @@ def run(R):
         add("seeded0", keys[0][1], msgstream[:n], [1] * n, "bytewise")
     for n in ([1000, 4096] if thorough else [1024]):
         add("seeded1", keys[1][1], msgstream[:n], [5, 16, 29, 64, 100], "long")
+    # inputs crafted for every carry / wrap / select branch of the 26-bit-limb code (Poly1305Donna.tla names the branches); each
+    # crafted message is fed whole and in two pieces
+    from props import polycraft
+    crafted = []
+    for cls in polycraft.CLASSES:
+        for j in range(4 if thorough else 2):
+            r = polycraft.craft(cls, R.rng)
+            if r is None:
+                raise vlib.ToolError("no Poly1305 input of class %s could be crafted" % cls)
+            crafted.append((cls, r[0], r[1]))
+            add("crafted:" + cls, r[0], r[1], [], "crafted")
+            add("crafted:" + cls, r[0], r[1], [7], "crafted-split")
     R.rule = ("[new, input..., result|raw_result] per (key class, message, chunking): keys = seeded, all-ones, zero, r in 0..5, r max, clamped-bit patterns; messages = lengths "
-              + ("0..80" if thorough else "boundary set up to 80") + ", saturating/wrap-around specials, seeded up to 4 KiB; chunkings = whole, byte-wise, TLC-generated splits at buffer size 16; "
+              + ("0..80" if thorough else "boundary set up to 80") + ", saturating/wrap-around specials, seeded up to 4 KiB, inputs crafted for each branch class of the limb code (%d classes x %d);" % (len(polycraft.CLASSES), 4 if thorough else 2) + " chunkings = whole, byte-wise, TLC-generated splits at buffer size 16; "
               "distinct = (key class, message class/length, chunking); non-trivial = non-empty message")
     res = R.conform("TraceMac", hs, cost=mc.cost_mac, describe=mc.describe)
+    # case analysis of the limb code on the inputs used: the donna transcription refines the RFC definition on each of them, and every branch
+    # class it distinguishes is reached by at least one input (vacuity guard)
+    pool = [{"id": R.next_id(), "ev": [{"op": "mac", "key": k, "data": m, "out": {"k": "v", "v": []}}]} for (_, k, m) in crafted]
+    seen = set()
+    for h in hs:
+        msg = [b for e in h["ev"] if e["op"] == "input" for b in e["data"]]
+        sig = (tuple(h["key"]), tuple(msg))
+        if sig not in seen and len(msg) <= 64 and len(pool) < (400 if thorough else 140):
+            seen.add(sig)
+            pool.append({"id": R.next_id(), "ev": [{"op": "mac", "key": h["key"], "data": msg, "out": {"k": "v", "v": []}}]})
+    if not R.collect:
+        extras = R.model_eval("Poly1305Donna", pool, "donna", cost=lambda r: 1 + len(r["ev"][0]["data"]) / 16.0)
+        cov = {}
+        for v in extras:
+            if v[0] == "COV":
+                for c in v[2]:
+                    cov[c] = cov.get(c, 0) + 1
+        need = ["blk_wrap", "blk_h0_carry", "blk_h1_unnormalised", "fin_c1", "fin_c2", "fin_c3", "fin_wrap", "fin_h0_carry", "fin_h0_carry_h1_odd", "sel_ge_p", "sel_lt_p"]
+        R.extra["donna_branch_classes"] = cov
+        missing = [c for c in need if not cov.get(c)]
+        if missing:
+            raise vlib.ToolError("vacuous run: no input reaches the limb-code branches %s" % missing)
     for r in res["records"][:2] + res["records"][-3:]:
         R.sample({"key": vlib.hexs(r["key"]), "inputs": [len(e.get("data", [])) for e in r["ev"] if e["op"] == "input"], "tag": vlib.hexs(r["ev"][-1]["out"]["v"]),
                   "verdict": res["verdicts"][r["id"]][0]})
